@@ -465,7 +465,7 @@ Lemma t_poll_write_spec offer w : offer <> [] ->
     wstep w w' /\ n <= len offer /\
     ((wscript w = [] /\ wscript w' = [] /\ n = len offer) \/ (length (wscript w') < length (wscript w))%nat) /\
     (wscript w = [] -> n <> 0)
-  | (PReady (inr k), w') => wstep w w' /\ (length (wscript w') < length (wscript w))%nat /\ k = EK_Transport
+  | (PReady (inr k), w') => wstep w w' /\ (length (wscript w') < length (wscript w))%nat /\ (k = EK_Transport \/ k = EK_Aborted)
   | (PWake, w') => wstep w w' /\ (length (wscript w') < length (wscript w))%nat
   | (PBlock, _) => False
   end.
@@ -480,7 +480,9 @@ Proof.
     destruct (k =? W_ZERO).
     { split; [apply Hs|]. split; [lia|]. split; [right; unfold w_set_w; cbn [wscript length]; lia|discriminate]. }
     destruct (k =? W_ERR).
-    { split; [apply Hs|]. split; [unfold w_set_w; cbn [wscript length]; lia|reflexivity]. }
+    { split; [apply Hs|]. split; [unfold w_set_w; cbn [wscript length]; lia|left; reflexivity]. }
+    destruct (k =? W_ERR_AB).
+    { split; [apply Hs|]. split; [unfold w_set_w; cbn [wscript length]; lia|right; reflexivity]. }
     split; [apply Hs|]. split; [lia|]. split; [right; unfold w_set_w; cbn [wscript length]; lia|discriminate].
 Qed.
 
@@ -612,8 +614,8 @@ Proof.
   apply (stream_ok_eq p p' K2). exact G2.
 Qed.
 
-Lemma rgood_transfer r p' wr lk : rgood r -> RI p' -> pkeep (rsp r) p' -> bytes_ok (raw_bytes p') ->
-  wr = rwriteable r -> rgood (mkR p' wr lk false).
+Lemma rgood_transfer r p' wr lk ab : rgood r -> RI p' -> pkeep (rsp r) p' -> bytes_ok (raw_bytes p') ->
+  wr = rwriteable r -> rgood (mkR p' wr lk ab).
 Proof.
   intros [G W] R' K B' ->. split; [cbn [rsp]; eapply pgood_transfer; eassumption|].
   destruct K as (K1 & K2 & K3). unfold wr_inv in *. cbn [rsp rwriteable]. rewrite K1, K2. exact W.
@@ -727,7 +729,7 @@ Lemma okeep_rgood r r' : rgood r -> okeep r r' -> rgood r' /\ pkeep (rsp r) (rsp
 Proof.
   intros G (R' & O & W). destruct (osame_views _ _ O) as (V1 & V2 & V3 & V4 & V5 & V6).
   split; [|split; [exact V4|exact V5]].
-  destruct r' as [p' wr' lk']. cbn [rsp rwriteable] in *. apply (rgood_transfer r); try assumption.
+  destruct r' as [p' wr' lk' ab']. cbn [rsp rwriteable] in *. apply (rgood_transfer r); try assumption.
   rewrite V2. apply G.
 Qed.
 
@@ -735,7 +737,7 @@ Lemma poll_output_ok : forall fuel r w, RI (rsp r) ->
   (length (wscript w) + (match output_buffer (rsp r) with [] => 0 | _ => 1 end) + 1 <= fuel)%nat ->
   match poll_output fuel r w with
   | (PReady (inl _), r', w') => okeep r r' /\ wstep w w' /\ output_buffer (rsp r') = []
-  | (PReady (inr k), r', w') => okeep r r' /\ wstep w w' /\ (k = EK_WriteZero \/ k = EK_Transport)
+  | (PReady (inr k), r', w') => okeep r r' /\ wstep w w' /\ (k = EK_WriteZero \/ k = EK_Transport \/ k = EK_Aborted)
   | (PWake, r', w') => okeep r r' /\ wstep w w' /\ (length (wscript w') < length (wscript w))%nat
   | (PBlock, _, _) => False
   end.
@@ -817,7 +819,7 @@ Proof.
   unfold rsize, psize. cbn [rsp]. unfold len in K7. lia.
 Qed.
 
-Lemma set_writeable_rgood p lk : rgood (mkR p false lk false) -> is_final_stream (mkR p false lk false) = true -> rgood (mkR p true lk false).
+Lemma set_writeable_rgood p lk ab : rgood (mkR p false lk ab) -> is_final_stream (mkR p false lk ab) = true -> rgood (mkR p true lk ab).
 Proof.
   intros [G W] F. split; [exact G|]. unfold wr_inv, wr_inv_at, is_final_stream in *. cbn [rsp rwriteable] in *.
   destruct W as (x & Ex & Hx). rewrite Ex in *. symmetry. apply final_is_last; [exact Hx|].
@@ -894,7 +896,7 @@ Proof.
     + destruct PR as (-> & NU). split; [exact C3|exact NU].
   - destruct PO as (K3 & S3 & Hk). split.
     + replace 0%nat with (0 + 0)%nat by reflexivity. eapply ckeep_trans; [exact C2|]. apply ckeep_okeep; [apply C2|exact K3|exact S3].
-    + destruct Hk as [->| ->]; unfold EK_WriteZero, EK_Transport; lia.
+    + destruct Hk as [->|[->| ->]]; unfold EK_WriteZero, EK_Transport, EK_Aborted; lia.
   - destruct PO as (K3 & S3 & Hw). split.
     + replace 0%nat with (0 + 0)%nat by reflexivity. eapply ckeep_trans; [exact C2|]. apply ckeep_okeep; [apply C2|exact K3|exact S3].
     + pose proof (ws_r _ _ S3). lia.
@@ -941,7 +943,7 @@ Proof.
       + destruct IL as [I1 I2]. split; [apply T; exact I1|]. pose proof (ws_w _ _ S1). pose proof (ws_r _ _ S1). lia.
       + destruct IL as [I1 I2]. split; [apply T; exact I1|exact I2].
     - destruct PO as (K1 & S1 & Hk). split; [apply ckeep_okeep; assumption|].
-      destruct Hk as [->| ->]; unfold EK_WriteZero, EK_Transport; lia.
+      destruct Hk as [->|[->| ->]]; unfold EK_WriteZero, EK_Transport, EK_Aborted; lia.
     - destruct PO as (K1 & S1 & Hw). split; [apply ckeep_okeep; assumption|]. pose proof (ws_r _ _ S1). lia.
     - contradiction. }
   unfold poll_input. cbv zeta.
@@ -1245,7 +1247,7 @@ Proof.
       unfold rsize in H5. lia.
     - eapply wstep_trans; eassumption.
     - destruct C as [C1 C2]. split; [eapply wstep_trans; eassumption|eapply okhalt_step; eassumption]. }
-  destruct e as [k|]; [|exact CT]. destruct (k =? EK_Aborted); [exact CT|exact H2].
+  destruct e as [k|]; [|exact CT]. destruct ((k =? EK_Aborted) && raborted r1); [exact CT|exact H2].
 Qed.
 
 (* ---- StreamWriter ---- *)
@@ -1380,7 +1382,7 @@ Qed.
 
 (* A handler script is a list of numbers: 1 n (read n bytes), 2 (read to the end), 3 k (fill the buffer, consume k),
    4 s (set_stream(Some s)), 5 (writeable), 6 s n data (write data on stream s), 7 s (flush), 8 d c (return the
-   exit status (d, c)), 9 k (return an error).  A script is well-formed if it only uses these opcodes with
+   exit status (d, c)), 9 k (return an error), 10 n (read n bytes, return the read error if there is one).  A script is well-formed if it only uses these opcodes with
    their arities and every exit status is a value of ExitStatus.  With [strict = true] it is moreover required
    that every set_stream is accepted by the stream order at that point ([cur] is the active stream: writeable()
    moves it to the role's last stream); with [strict = false] a rejected set_stream is the handler's own
@@ -1396,7 +1398,8 @@ Inductive script_ok (strict : bool) (role : N) : option N -> list N -> Prop :=
 | SO_write cur s n rest : script_ok strict role cur (drop n rest) -> script_ok strict role cur (6 :: s :: n :: rest)
 | SO_flush cur s rest : script_ok strict role cur rest -> script_ok strict role cur (7 :: s :: rest)
 | SO_exit cur d c rest : In d EXITSTATUS_VALUES -> script_ok strict role cur (8 :: d :: c :: rest)
-| SO_fail cur k rest : script_ok strict role cur (9 :: k :: rest).
+| SO_fail cur k rest : script_ok strict role cur (9 :: k :: rest)
+| SO_readq cur n rest : script_ok strict role cur rest -> script_ok strict role cur (10 :: n :: rest).
 
 Definition okhalt70 (strict : bool) (w : world) (o : outcome) : Prop :=
   okhalt w o \/ (strict = false /\ o = OPanic 70).
@@ -1432,7 +1435,7 @@ Lemma run_handler_ok strict role cur script : script_ok strict role cur script -
   hpost strict r w (run_handler maxc f script r w).
 Proof.
   induction 1 as [cur|cur n rest H IH|cur rest H IH|cur k rest H IH|cur s rest Hacc H IH|cur rest H IH
-                  |cur s n rest H IH|cur s rest H IH|cur d c rest Hd|cur k rest];
+                  |cur s n rest H IH|cur s rest H IH|cur d c rest Hd|cur k rest|cur n rest H IH];
     intros f r w Hf G Wok Hrole Hcur; (destruct f as [|f]; [cbn [length] in Hf; lia|]); cbn [length] in Hf; cbn [run_handler].
   - (* end of script *)
     split; [apply hkeep_world with (w' := w); [apply hkeep_refl; exact G|apply wstep_ev]|apply exit_complete_in].
@@ -1551,6 +1554,18 @@ Proof.
     split; [apply hkeep_world with (w' := w); [apply hkeep_refl; exact G|apply wstep_ev]|exact Hd].
   - (* 9 k *)
     split; [apply hkeep_world with (w' := w); [apply hkeep_refl; exact G|apply wstep_ev]|exact I].
+  - (* 10 n *)
+    pose proof (await_input_io (Some n) r w G Wok) as AI.
+    destruct (await_input maxc (io_fuel w 0) (Some n) r w) as [[[[c b]|k] r1] w1|o w1].
+    + destruct (ckeep_hkeep _ _ _ _ _ AI) as [H1 S1].
+      set (w2 := w_ev (w_ev w1 [1; 1; c]) b).
+      assert (H2 : hkeep r w r1 w2).
+      { apply hkeep_world with (w' := w1); [exact H1|]. eapply wstep_trans; apply wstep_ev. }
+      apply (hpost_cont _ _ _ _ _ _ H2). pose proof H2 as (G2 & S2 & Q2 & _).
+      apply IH; [lia|exact G2|exact (ws_ok _ _ S2 Wok)|rewrite Q2; exact Hrole|congruence].
+    + destruct AI as [AI _]. destruct (ckeep_hkeep _ _ _ _ _ AI) as [H1 S1].
+      split; [|exact I]. apply hkeep_world with (w' := w1); [exact H1|]. eapply wstep_trans; apply wstep_ev.
+    + destruct AI as [A1 A2]. split; [exact A1|left; exact A2].
 Qed.
 
 (* ---- the request parser makes progress: from the state Header it cannot finish without consuming ---- *)
@@ -1744,7 +1759,7 @@ Proof.
       left. eapply okhalt_step; eassumption. }
   destruct st as [[d c]|k].
   - apply CLOSE. exact Hst.
-  - destruct (k =? EK_Aborted); [apply CLOSE; apply exit_complete_in|apply RET; exact S03].
+  - destruct ((k =? EK_Aborted) && raborted r1); [apply CLOSE; apply exit_complete_in|apply RET; exact S03].
 Qed.
 
 (* ---- main theorems ---- *)
